@@ -602,8 +602,30 @@ func (s *S) authCheck(fid, afid *go9p.SrvFid, aname string) error {
 	return nil
 }
 
+// holdAuth is the Hold support of AuthRead / AuthWrite (keys "authread/<off>/<len>",
+// "authwrite/<off>/<len>"): it signals WaitEntered(key) if the harness Set the
+// key, and parks until Release(key) if the behaviour says Hold. It touches
+// neither the fid nor the log, and does nothing for keys that were never Set.
+func (s *S) holdAuth(key string) {
+	s.mu.Lock()
+	b := s.behav[key]
+	gate := s.gates[key]
+	if ent, ok := s.entered[key]; ok {
+		select {
+		case <-ent:
+		default:
+			close(ent)
+		}
+	}
+	s.mu.Unlock()
+	if b.Hold && gate != nil {
+		<-gate
+	}
+}
+
 func (s *S) authRead(afid *go9p.SrvFid, off uint64, data []byte) (int, error) {
 	key := fmt.Sprintf("authread/%d/%d", off, len(data))
+	s.holdAuth(key) // Behav.Hold: an authentication read that waits for the peer (parks before anything else)
 	s.add(Entry{Kind: "authread", Conn: afid.Fconn.Id, Key: key, Inc: s.aux(afid)})
 	s.mu.Lock()
 	b := s.behav[key]
@@ -621,6 +643,7 @@ func (s *S) authRead(afid *go9p.SrvFid, off uint64, data []byte) (int, error) {
 
 func (s *S) authWrite(afid *go9p.SrvFid, off uint64, data []byte) (int, error) {
 	key := fmt.Sprintf("authwrite/%d/%d", off, len(data))
+	s.holdAuth(key)
 	s.add(Entry{Kind: "authwrite", Conn: afid.Fconn.Id, Key: key, Inc: s.aux(afid)})
 	return len(data), nil
 }
